@@ -34,6 +34,8 @@ def main():
     except ValueError:
         seed = 0
     mod = importlib.import_module("props.%s" % prop.lower())
+    import shared_props
+    shared_props.extend(mod, prop)
     ctx = Ctx(prop, args.tier, seed)
 
     if args.replay:
@@ -108,6 +110,27 @@ def main():
         # ---- failing-input search when something is broken but no failing input is known yet
         if ctx.broken and not ctx.violations and hasattr(mod, "search"):
             mod.search(ctx)
+        # generic widening of that search: an obligation no longer checks and no input failed yet -> the same generators
+        # again under further seeds (bounded in time); never reached on a tree where everything checks
+        if ctx.broken and not ctx.violations:
+            import random
+            t_end = time.time() + (150 if args.tier == "quick" else 900)
+            extra = 0
+            while not ctx.violations and time.time() < t_end and extra < 8:
+                extra += 1
+                ctx.seed = seed * 1000 + 7919 * extra
+                ctx.rng = random.Random((ctx.seed * 1000003) ^ common.hash_str(prop))
+                ctx.t0 = time.time()
+                try:
+                    mod.run(ctx)
+                except (CheckBroken, common.EngineBuildError):
+                    raise
+                except Exception:
+                    if not ctx.violations:
+                        ctx.notes.append("widened search (seed %d) raised: %s" % (ctx.seed, traceback.format_exc()[-400:]))
+                        break
+            ctx.extra["widened_search_runs"] = extra
+            ctx.seed = seed
     except CheckBroken as e:
         print("CHECK-BROKEN property=%s %s" % (prop, str(e)[:3000]))
         return 2
